@@ -129,6 +129,7 @@ class Interp:
         self.ptr_phi = None         # value for pointer-typed loop-header phis
         self.phi_vals = {}          # preset values for header phis
         self._lazy = 0
+        self.arg_mem = False        # treat memory behind pointer parameters like locals (read/write, symbolic)
 
     # ------------------------------------------------------------ memory
     def rd(self, obj, off, nbytes):
@@ -283,7 +284,7 @@ class Interp:
             bits = self.bits(fr, i["ops"][0], vn)
             if p[2] is None:
                 raise NotAffine("store through a pointer with unknown offset")
-            if p[1][0] == "arg":
+            if p[1][0] == "arg" and not self.arg_mem:
                 for j in range(0, vn, 8):
                     self.outs[(p[1][1], p[2] + j // 8)] = list(bits[j:j + 8])
             else:
@@ -775,8 +776,11 @@ def iter_eval(prog, f, header, path, names=None):
             return V.atom(("E", obj[1], byte, bit))
         if obj[0] == "gelem":
             return V.atom(("G", byte % 8, bit))
+        if obj[0] == "arg":
+            return V.atom(("M", obj[1], byte, bit))
         return TOP
     I = Interp(prog, V, mem_default)
+    I.arg_mem = True
     fr = Frame(f, [("p", ("arg", k), 0) for k in range(len(f.params))], 0)
     for k, p in enumerate(f.params):
         if not p["type"].endswith("*"):
@@ -833,6 +837,9 @@ def mantis_round_inverse(prog, f, loop_paths):
             if obj[0] == "al" and obj[1] == 0:
                 for bit, form in enumerate(cell):
                     out[("L", re.sub(r"(\.i\d*)+$", "", str(I_names.get(obj[2], obj[2]))), byte, bit)] = enc(V, form)
+            elif obj[0] == "arg":
+                for bit, form in enumerate(cell):
+                    out[("M", obj[1], byte, bit)] = enc(V, form)
         return out
     (h1, p1, V1, I1, fr1, ph1), (h2, p2, V2, I2, fr2, ph2) = rounds
     I_names = {}
@@ -851,7 +858,7 @@ def mantis_round_inverse(prog, f, loop_paths):
                 return ("skip", "forward S-box call shape not recognised")
             for p, a in enumerate(fresh):
                 e = enc(V1, src[p])
-                if e is None or e[1] != 0 or len(e[0]) != 1 or next(iter(e[0]))[0] != "L":
+                if e is None or e[1] != 0 or len(e[0]) != 1 or next(iter(e[0]))[0] not in ("L", "M"):
                     return ("skip", "forward round does not apply the S-box to the plain state")
                 u_of[V1.names_of(a[0])[0]] = next(iter(e[0]))
     loc_u = {loc: nm for nm, loc in u_of.items()}
@@ -870,7 +877,7 @@ def mantis_round_inverse(prog, f, loop_paths):
         """apply the forward round to the locations a backward form reads"""
         acc, c = set(), form[1]
         for nm in form[0]:
-            rep_ = F.get(nm) if nm[0] == "L" else None
+            rep_ = F.get(nm) if nm[0] in ("L", "M") else None
             if rep_ is None:
                 acc ^= {nm}
             else:
